@@ -22,10 +22,13 @@ ALIAS = {
 }
 
 
-def _quic_app(cfg):
-    """1-RTT datagrams of a QUIC connection: server data only, or client data followed by server data"""
+def _quic_app(cfg, tag="b."):
+    """1-RTT datagrams of a QUIC connection: server data only, or client data followed by server data.  The first connection's server
+    data packet has packet number 200 (packets not in the capture before it): its state is far from a fresh connection's."""
     if cfg.get("client_data"):
         return {"n_app": 2, "data_len": 1, "sym_dirs": False, "dirs": [0, 1]}
+    if tag.startswith("a"):
+        return {"n_app": 1, "data_len": 1, "sym_dirs": False, "dirs": [1], "pn_gap": 200}
     return {"n_app": 1, "data_len": 1, "sym_dirs": False, "dirs": [1]}
 
 
@@ -111,7 +114,7 @@ def _conn(kind, tag, cfg, src):
             frames.append((F.ethernet(d_[2], s_[2], ep.ipv == 6, F.ip_header(ep.ipv == 6, s_[0], d_[0], 6, len(sg)) + sg), 0, fs))
         return frames, keylog, meta, ep, "tcp"
     cc, sc = cfg["cids"] or (4, 8)
-    qcfg = {"suite": 0x1301, "offered": [0x1301], "odcid_len": 8, "c_cid_len": cc, "s_cid_len": sc, **_quic_app(cfg)}
+    qcfg = {"suite": 0x1301, "offered": [0x1301], "odcid_len": 8, "c_cid_len": cc, "s_cid_len": sc, **_quic_app(cfg, tag)}
     dgrams, keylog, meta = QS.build(qcfg, src)
     frames = []
     for d in dgrams:
@@ -349,7 +352,7 @@ def replay(cfg, viol):
             pk = [fr for fr, t in e2e.concrete_frames(ep, items, group=groups)]
         else:
             cc, sc = cfg["cids"] or (4, 8)
-            qcfg = {"suite": 0x1301, "offered": [0x1301], "odcid_len": 8, "c_cid_len": cc, "s_cid_len": sc, **_quic_app(cfg)}
+            qcfg = {"suite": 0x1301, "offered": [0x1301], "odcid_len": 8, "c_cid_len": cc, "s_cid_len": sc, **_quic_app(cfg, tag)}
             dgrams, keylog, meta = QS.build(qcfg, src)
             pk = [fr for fr, t in e2e.concrete_udp_frames(ep, dgrams)]
         conns.append({"pk": pk, "keylog": keylog, "ep": ep, "kind": kind})
